@@ -20,7 +20,7 @@ PROPS = {
         ],
     },
     "C04": {
-        "level_text": 'Model checking of the real StripedSequence buffer: explicit-state BFS to fixpoint over histories of stripe_into (every backend) / configure_wrap / configure / clone with canonical-state de-duplication, every transition checked against a linear-sequence model; plus a complete product enumeration of single stripes for every length 0..=2200 and every striping configuration. The library\'s own linear counts (EncodedSequence and slice count_symbol(s)) are held against the same model (digit patterns contain aligned runs of 256 and more identical symbols).',
+        "level_text": 'Model checking of the real StripedSequence buffer: explicit-state BFS to fixpoint over histories of stripe_into (every backend) / configure_wrap / configure / clone with canonical-state de-duplication, every transition checked against a linear-sequence model; plus a complete product enumeration of single stripes for every length 0..=2200 and every striping configuration. The library\'s own linear counts (EncodedSequence and slice count_symbol(s)) are held against the same model (digit patterns contain aligned runs of 256 and more identical symbols). The conversions EncodedSequence::to_striped and StripedSequence::from(EncodedSequence) are compared with Stripe::stripe for every length.',
         "level_note": "Trusted: linear-sequence model; canonical key soundness argument (DESIGN C04); data-obliviousness of striping. Memory-safety side of striping is C06's business.",
         "technique": 'explicit-state BFS by re-execution over buffer histories + product enumeration of lengths/backends',
         "level": "model_checking",
